@@ -1,4 +1,5 @@
 import Capnp.Spec.Canon
+import Capnp.Props.C17
 /-!
 # C18 — canonical form is valid, value-preserving and layout-independent
 
@@ -6,7 +7,10 @@ import Capnp.Spec.Canon
 tree alone, so it cannot depend on segment placement or pointer kinds.  Proved here: schema-version
 padding (trailing null pointers, trailing zero data words: `canon_struct_pad`, for every struct, every
 amount of padding, at any depth via `canonPtr_struct_pad`) does not change it; truncation is idempotent
-and never leaves a trailing zero word / null pointer (`trunc*_idem`, `trunc*_last`); capabilities are rejected.
+and never leaves a trailing zero word / null pointer (`trunc*_idem`, `trunc*_last`); two word-aligned data
+sections are equal in the sense of `Equal` (C17) exactly when their canonical truncations are identical
+(`dataEq_iff_truncData`), hence equal pointer-free structs have identical canonical bytes (`canon_flat_of_eq`);
+capabilities are rejected.
 That `Canonicalize` computes `canon`, that the result decodes to an equal value, and that
 canonicalising twice is the identity are decided by the S-stream of the C18 check.
 -/
@@ -139,6 +143,144 @@ example : canon (.struct ([1,0,0,0,0,0,0,0] ++ List.replicate (8 * 1) 0) ([.stru
     = canon (.struct [1,0,0,0,0,0,0,0] [.struct [5,0,0,0,0,0,0,0] []]) := canon_struct_pad _ _ 1 1 2 rfl
 example : truncPtrs [.cap 1, .null, .null] = [.cap 1] := by simp [truncPtrs, List.dropWhile, isNullV]
 
+
+/-! ## C17's equality and canonical identity agree on data sections -/
+
+theorem all_zero_replicate (l : List Nat) (h : l.all (· == 0) = true) : l = List.replicate l.length 0 := by
+  induction l with
+  | nil => rfl
+  | cons x l ih =>
+    simp only [List.all_cons, Bool.and_eq_true, beq_iff_eq] at h
+    simp only [List.length_cons, List.replicate_succ, h.1]
+    congr 1; exact ih h.2
+
+/-- documented data equality = one section is the other followed by zero bytes -/
+theorem dataEq_split (a b : List Nat) (h : dataEq a b = true) :
+    (∃ n, b = a ++ List.replicate n 0) ∨ (∃ n, a = b ++ List.replicate n 0) := by
+  induction a generalizing b with
+  | nil =>
+    left; refine ⟨b.length, ?_⟩
+    cases b with
+    | nil => rfl
+    | cons y ys => simp only [dataEq] at h; simpa using all_zero_replicate _ h
+  | cons x xs ih =>
+    cases b with
+    | nil =>
+      right; refine ⟨(x :: xs).length, ?_⟩
+      simp only [dataEq] at h; simpa using all_zero_replicate _ h
+    | cons y ys =>
+      simp only [dataEq, Bool.and_eq_true, beq_iff_eq] at h
+      obtain ⟨rfl, h2⟩ := h
+      rcases ih ys h2 with ⟨n, hn⟩ | ⟨n, hn⟩
+      · left; exact ⟨n, by simp [hn]⟩
+      · right; exact ⟨n, by simp [hn]⟩
+
+/-- **equal data sections canonicalise identically** (word-aligned sections, as every struct's data section is):
+    the documented equality of C17 implies identical truncated data, whatever the two schema versions' sizes -/
+theorem dataEq_truncData (a b : List Nat) (m n : Nat) (ha : a.length = 8 * m) (hb : b.length = 8 * n)
+    (h : dataEq a b = true) : truncData a = truncData b := by
+  rcases dataEq_split a b h with ⟨k, hk⟩ | ⟨k, hk⟩
+  · have : k = 8 * (n - m) := by
+      have := congrArg List.length hk; simp at this; omega
+    subst this; rw [hk, truncData_pad a m _ ha]
+  · have : k = 8 * (m - n) := by
+      have := congrArg List.length hk; simp at this; omega
+    subst this; rw [hk, truncData_pad b n _ hb]
+
+theorem wordsOf_snoc (d w : List Nat) (m : Nat) (hd : d.length = 8 * m) (hw : w.length = 8) :
+    wordsOf (d ++ w) = wordsOf d ++ [w] := by
+  apply List.ext_getElem
+  · simp [wordsOf, hd, hw]; omega
+  · intro i h1 h2
+    simp only [wordsOf, List.length_map, List.length_range, List.length_append, hd, hw] at h1
+    have hi : i < m + 1 := by omega
+    simp only [wordsOf, List.getElem_map, List.getElem_range]
+    by_cases hlt : i < m
+    · rw [List.getElem_append_left (by simp [hd]; omega)]
+      simp only [List.getElem_map, List.getElem_range]
+      have : (List.drop (8 * i) (d ++ w)).take 8 = (List.drop (8 * i) d).take 8 := by
+        rw [List.drop_append_of_le_length (by omega), List.take_append_of_le_length (by simp; omega)]
+      rw [this]
+    · rw [List.getElem_append_right (by simp [hd]; omega)]
+      have him : i = m := by omega
+      subst him
+      have : (List.drop (8 * i) (d ++ w)).take 8 = w := by
+        rw [List.drop_append, List.drop_eq_nil_of_le (by omega), List.nil_append, hd, Nat.sub_self, List.drop_zero,
+          List.take_of_length_le (by omega)]
+      rw [this]; simp [hw]
+
+theorem truncWords_snoc (ws : List (List Nat)) (w : List Nat) :
+    truncWords (ws ++ [w]) = if w.all (· == 0) then truncWords ws else ws ++ [w] := by
+  unfold truncWords
+  rw [List.reverse_append]
+  by_cases h : w.all (· == 0) = true
+  · simp [h]
+  · simp [h]
+
+/-- a word-aligned data section splits into `m` words -/
+theorem aligned_snoc (a : List Nat) (m : Nat) (ha : a.length = 8 * (m + 1)) :
+    ∃ d w, a = d ++ w ∧ d.length = 8 * m ∧ w.length = 8 :=
+  ⟨a.take (8 * m), a.drop (8 * m), (List.take_append_drop _ _).symm, by simp; omega, by simp; omega⟩
+
+theorem wordsOf_flatten (a : List Nat) (m : Nat) (ha : a.length = 8 * m) : (wordsOf a).flatten = a := by
+  induction m generalizing a with
+  | zero => have : a = [] := List.eq_nil_of_length_eq_zero (by omega); subst this; rfl
+  | succ m ih =>
+    obtain ⟨d, w, rfl, hd, hw⟩ := aligned_snoc a m ha
+    rw [wordsOf_snoc d w m hd hw, List.flatten_append, ih d hd]; simp
+
+/-- truncation only removes zero bytes from the end -/
+theorem truncData_prefix (a : List Nat) (m : Nat) (ha : a.length = 8 * m) :
+    ∃ k, a = truncData a ++ List.replicate k 0 := by
+  induction m generalizing a with
+  | zero => have : a = [] := List.eq_nil_of_length_eq_zero (by omega); subst this; exact ⟨0, rfl⟩
+  | succ m ih =>
+    obtain ⟨d, w, rfl, hd, hw⟩ := aligned_snoc a m ha
+    rw [truncData_eq, wordsOf_snoc d w m hd hw, truncWords_snoc]
+    by_cases h : w.all (· == 0) = true
+    · obtain ⟨k, hk⟩ := ih d hd
+      rw [if_pos h, ← truncData_eq]
+      refine ⟨k + 8, ?_⟩
+      have hwz := all_zero_replicate w h
+      rw [hw] at hwz
+      rw [hwz, ← List.replicate_append_replicate, ← List.append_assoc, ← hk]
+    · rw [if_neg h, List.flatten_append, wordsOf_flatten d m hd]
+      exact ⟨0, by simp⟩
+
+theorem dataEq_zeros (j k : Nat) : dataEq (List.replicate j 0) (List.replicate k 0) = true := by
+  induction j generalizing k with
+  | zero => cases k <;> simp [dataEq, List.replicate]
+  | succ j ih => cases k <;> simp [dataEq, List.replicate, ih]
+
+theorem dataEq_common (t : List Nat) (j k : Nat) :
+    dataEq (t ++ List.replicate j 0) (t ++ List.replicate k 0) = true := by
+  induction t with
+  | nil => simpa using dataEq_zeros j k
+  | cons x t ih => simp [dataEq, ih]
+
+/-- **identical canonical data ⇒ equal values**: the converse of `dataEq_truncData` -/
+theorem truncData_dataEq (a b : List Nat) (m n : Nat) (ha : a.length = 8 * m) (hb : b.length = 8 * n)
+    (h : truncData a = truncData b) : dataEq a b = true := by
+  obtain ⟨j, hj⟩ := truncData_prefix a m ha
+  obtain ⟨k, hk⟩ := truncData_prefix b n hb
+  rw [hj, hk, h]; exact dataEq_common _ j k
+
+
+/-- **value equality and canonical identity coincide on data sections** (both directions, every pair of
+    word-aligned sections of any two sizes) -/
+theorem dataEq_iff_truncData (a b : List Nat) (m n : Nat) (ha : a.length = 8 * m) (hb : b.length = 8 * n) :
+    dataEq a b = true ↔ truncData a = truncData b :=
+  ⟨dataEq_truncData a b m n ha hb, truncData_dataEq a b m n ha hb⟩
+
+/-- pointer-free structs that `Equal` (C17's documented equality) have byte-identical canonical forms -/
+theorem canon_flat_of_eq (f : Nat) (a b : List Nat) (m n : Nat) (ha : a.length = 8 * m) (hb : b.length = 8 * n)
+    (h : eq (f + 1) (.struct a []) (.struct b []) = true) : canon (.struct a []) = canon (.struct b []) := by
+  simp only [eq, Bool.and_eq_true] at h
+  simp only [canon, canonPtr, dataEq_truncData a b m n ha hb h.1]
+
+example : dataEq [1,0,0,0,0,0,0,0, 0,0,0,0,0,0,0,0] [1,0,0,0,0,0,0,0] = true ∧
+    truncData [1,0,0,0,0,0,0,0, 0,0,0,0,0,0,0,0] = truncData [1,0,0,0,0,0,0,0] := by
+  refine ⟨by decide, (dataEq_iff_truncData _ _ 2 1 rfl rfl).1 (by decide)⟩
 
 -- non-vacuity
 example : canon (.struct [] [.cap 3]) = none := by simp [canon, canonPtr, truncData, truncPtrs, isNullV, canonPtrs]
